@@ -6,6 +6,7 @@ import (
 	"io"
 	"strings"
 	"text/template"
+	"time"
 
 	"github.com/google/uuid"
 	i_api "github.com/resonatehq/resonate/internal/api"
@@ -199,8 +200,15 @@ func (a *API) SearchSchedules(id string, tags map[string]string, limit int, curs
 }
 
 func (a *API) ValidateCron(cron string) *Error {
-	if _, err := util.ParseCron(cron); err != nil {
+	schedule, err := util.ParseCron(cron)
+	if err != nil {
 		return RequestValidationError(errors.New("The field cron must be a valid cron expression."))
+	}
+
+	// an expression that parses but never occurs (e.g. february 31st) has no
+	// next run time
+	if schedule.Next(time.Now()).IsZero() {
+		return RequestValidationError(errors.New("The field cron must be a cron expression that occurs."))
 	}
 
 	return nil
